@@ -90,7 +90,15 @@ def replay_case(where):
     return [o for o in out if o[2]['index'] == where['index'] and o[2]['strategy'] == where['strategy']]
 
 
+MERGE_STATE = ('nbdime.utils', 'nbdime.merging')
+
+
 def run(res):
+    # frame part (Kit F): the strategy tables hold no state shared between calls -- a strategy run and its reference cannot be
+    # told apart by an oracle computed in the same (equally affected) process, so history dependence is excluded statically
+    from . import c12
+    for kind, text, where in c12.frame_obligations(res, MERGE_STATE):
+        res.violation('frame obligation fails: %s' % text, {'kind': 'failed-frame-obligation', 'obligation': where, 'detail': text}, no_input=True)
     q = res.tier == 'quick'
     jobs = [(res.seed * 8191 + s, 60 if q else 250) for s in range(48 if q else 128)]
     seen = set()
